@@ -20,10 +20,12 @@ for f in K:
     if f['status'] == 'open':
         o += "| %s | %s | %s | dependency code (noodles-bcf 0.32, pinned by Cargo.lock; no other version in the offline registry) |\n" % (f['id'], f['property'], f['what'].replace('|', '\\|'))
 R = json.load(open(os.path.join(V, 'seeded', 'RESULTS.json')))
-try:
-    BEFORE = json.load(open(os.path.join(V, 'seeded', 'RESULTS_round2_before_strengthening.json')))['results']
-except OSError:
-    BEFORE = {}
+BEFORE = {}
+for fn in ('RESULTS_round2_before_strengthening.json', 'RESULTS_round3_before_strengthening.json'):
+    try:
+        BEFORE.update(json.load(open(os.path.join(V, 'seeded', fn)))['results'])
+    except OSError:
+        pass
 c = "| change | needs to manifest | caught by (first report) | before strengthening |\n|---|---|---|---|\n"
 for mid in sorted(R):
     m = json.load(open(os.path.join(V, 'seeded', mid, 'meta.json')))
@@ -36,7 +38,7 @@ for mid in sorted(R):
 n_total = len(R)
 n_det = sum(1 for r in R.values() if any(isinstance(v, dict) and v.get('detected') for v in r.values()))
 nb = sum(1 for b in BEFORE.values() if any(isinstance(v, dict) and v.get('detected') for v in b.values()))
-c += "\n%d of %d seeded changes are caught by the check of the property they were written against (quick tier, seed 1). Second round (ids -c/-d): %d of %d were caught by the machinery as it stood before those changes were known (commit 4f635dd); the rest were caught after the strengthening described below.\n" % (n_det, n_total, nb, len(BEFORE))
+c += "\n%d of %d seeded changes are caught by the check of the property they were written against (quick tier, seed 1). Second and third round (ids -c/-d, -e/-f): %d of %d were caught by the machinery as it stood before the respective round was known; the rest were caught after the strengthening described below.\n" % (n_det, n_total, nb, len(BEFORE))
 for name, body in (("fix-table", t), ("open-table", o), ("seeded-table", c)):
     pat = re.compile(r"<!-- BEGIN:%s -->.*?<!-- END:%s -->" % (name, name), re.S)
     assert pat.search(s), name
